@@ -7,6 +7,7 @@ or a small z3 query over path strings), refuted (a write primitive / call / orde
 reported with the offending source location) or unknown (the code left the shapes this checker understands).
 """
 import ast
+import re
 import hashlib
 import time
 
@@ -43,6 +44,26 @@ ALLOWED_PRIMITIVES = {
     # not reachable from the shipped CLIs (checked below); declared with their own frames and excluded from the claim
     "ascmhl.chain_txt_parser.write_chain": [("open:a", "chain.file_path")],
     "ascmhl._debug_commands.create_dummy_file_structure": None,
+}
+# the same frames with the path arguments expressed over the writer's PARAMETERS (locals substituted by their definitions)
+CANON_ALLOWED = {
+    "ascmhl.hashlist_xml_parser.write_hash_list": [
+        ("os.mkdir", "os.path.dirname(file_path)"),
+        ("open:wb", "file_path + '.tmp'"),
+        ("os.replace", "file_path + '.tmp', file_path"),
+        ("os.remove", "file_path + '.tmp'"),
+        ("os.rmdir", "os.path.dirname(file_path)"),
+    ],
+    "ascmhl.chain_xml_parser.write_chain": [
+        ("os.mkdir", "os.path.dirname(chain.file_path)"),
+        ("open:wb", "chain.file_path + '.tmp'"),
+        ("os.replace", "chain.file_path + '.tmp', chain.file_path"),
+        ("os.remove", "chain.file_path + '.tmp'"),
+    ],
+    "ascmhl.history.MHLHistory.create_collection_at_path": [
+        ("os.mkdir", "os.path.dirname(os.path.join(root_path, collection_folder_name))"),
+        ("os.mkdir", "os.path.join(root_path, collection_folder_name)"),
+    ],
 }
 # definitions that place the written paths inside the frame (variable -> accepted defining expressions)
 PATH_DEFS = {
@@ -252,6 +273,46 @@ class Statics:
                 out.append(("augmented", n.lineno))
         return out
 
+    def canon(self, expr, fi, depth=0):
+        """source of `expr` with single-assignment locals of `fi` replaced by their defining expressions (so that renaming a
+        local or introducing an intermediate variable does not change the result)"""
+        if depth > 5:
+            return ast.unparse(expr)
+        assigns = {}
+        for n in ast.walk(fi.node):
+            if isinstance(n, ast.Assign) and len(n.targets) == 1 and isinstance(n.targets[0], ast.Name):
+                assigns.setdefault(n.targets[0].id, []).append(n.value)
+            elif isinstance(n, (ast.AugAssign, ast.For, ast.With)):
+                for x in ast.walk(n.target if isinstance(n, (ast.AugAssign, ast.For)) else ast.Module(body=[], type_ignores=[])):
+                    if isinstance(x, ast.Name):
+                        assigns.setdefault(x.id, []).extend([None, None])
+        params = {a.arg for a in fi.node.args.args + fi.node.args.kwonlyargs}
+
+        class Sub(ast.NodeTransformer):
+            def visit_Name(self_, node):
+                v = assigns.get(node.id)
+                if node.id not in params and v is not None and len(v) == 1 and v[0] is not None:
+                    return ast.parse(self.canon(v[0], fi, depth + 1), mode="eval").body
+                return node
+
+        import copy
+
+        return ast.unparse(Sub().visit(copy.deepcopy(expr)))
+
+    def only_via_writers(self, q):
+        """is function q reachable from the shipped commands only through a declared writer function?"""
+        if not hasattr(self, "_nowriter_reach"):
+            seen = set()
+            stack = [c for c in COMMAND_FRAMES if c in self.repo.funcs]
+            while stack:
+                x = stack.pop()
+                if x in seen or x not in self.repo.funcs or x in WRITERS:
+                    continue
+                seen.add(x)
+                stack.extend(self.callees(self.repo.funcs[x]))
+            self._nowriter_reach = seen
+        return q not in self._nowriter_reach
+
     # ---------------------------------------------------------------- C14
     def c14(self):
         pid = "C14"
@@ -271,11 +332,29 @@ class Statics:
                 self.ob(pid, q, "debug-helper-not-shipped", q not in shipped, "debug helper with its own frame became reachable from a shipped command")
                 continue
             for kind, arg, line in prims:
-                ok = (kind, arg) in allowed
-                self.ob(
-                    pid, q, f"write-primitive-declared/{kind}({arg})@{line}", ok,
-                    f"write primitive {kind}({arg}) is not in the function's declared file-system frame {allowed}", line,
-                )
+                try:
+                    carg = ", ".join(self.canon(a, fi) for a in ast.parse(f"f({arg})", mode="eval").body.args) if arg else arg
+                except SyntaxError:
+                    carg = arg
+                ok = (kind, carg) in CANON_ALLOWED.get(q, [])
+                if ok:
+                    self.ob(pid, q, f"write-primitive-declared/{kind}@{line}", True)
+                    continue
+                kinds_of_writers = {k for w in WRITERS for k, _ in CANON_ALLOWED.get(w, [])}
+                if q not in CANON_ALLOWED and self.only_via_writers(q) and kind in kinds_of_writers:
+                    # e.g. a helper extracted from a writer: its effect belongs to the writer's frame, but the path argument
+                    # can no longer be related to the writer's parameters syntactically: undecided (the bounded audit decides)
+                    self.ob(pid, q, f"write-primitive-declared/{kind}@{line}", False,
+                            f"write primitive {kind}({carg}) in a function that is only reachable through the declared writers: "
+                            "its path cannot be related to the writer's frame syntactically", line, unknown=True)
+                elif q in CANON_ALLOWED and kind in {k for k, _ in CANON_ALLOWED[q]}:
+                    self.ob(pid, q, f"write-primitive-declared/{kind}@{line}", False,
+                            f"write primitive {kind}({carg}): the declared frame of this writer has {CANON_ALLOWED[q]}", line, unknown=True)
+                else:
+                    self.ob(
+                        pid, q, f"write-primitive-declared/{kind}({carg})@{line}", False,
+                        f"write primitive {kind}({carg}) outside every declared file-system frame (declared writers: {sorted(CANON_ALLOWED)})", line,
+                    )
             if not prims:
                 self.ob(pid, q, "fs_modifies=nothing", True)
             for kind, arg in allowed:
@@ -288,12 +367,15 @@ class Statics:
             if fi is None:
                 self.ob(pid, q, "exists", False, "function not found", unknown=True)
                 continue
+            if q in CANON_ALLOWED:
+                continue  # covered by the canonical primitive arguments above
             for var, accepted in defs.items():
                 srcs = self.assigns(fi, var)
                 ok = len(srcs) >= 1 and all(s in accepted for s, _ in srcs)
                 self.ob(
                     pid, q, f"path-definition/{var}", ok,
                     f"{var} is assigned {[s for s, _ in srcs]}, frame needs one of {accepted}", srcs[0][1] if srcs else None,
+                    unknown=not ok,
                 )
         # (3) command frames via the call graph
         for q, frame in COMMAND_FRAMES.items():
@@ -302,10 +384,13 @@ class Statics:
             r = self.reach(q)
             w = {x for x in r if self.primitives(self.repo.funcs[x]) and self.repo.funcs[x].module not in EXCLUDED_MODULES}
             extra = sorted(w - frame)
+            # helpers that are only reachable through a declared writer that is itself in this command's frame belong to
+            # that writer's effect (their path arguments are judged - as undecided - by the primitive obligations above)
+            hard = [x for x in extra if not (self.only_via_writers(x) and any(x in self.reach(wr) for wr in frame if wr in self.repo.funcs))]
             self.ob(
                 pid, q, "command-frame", not extra,
                 f"functions with file-system writes reachable from this command but outside its declared frame {sorted(frame)}: {extra}",
-                self.repo.funcs[q].node.lineno, kind="callgraph",
+                self.repo.funcs[q].node.lineno, kind="callgraph", unknown=bool(extra) and not hard,
             )
             dbg = sorted(x for x in r if x.startswith(("ascmhl._debug_commands", "ascmhl.chain_txt_parser")))
             if q not in ("ascmhl.commands.create",):
@@ -327,10 +412,12 @@ class Statics:
         if fi is None:
             return
         srcs = self.assigns(fi, param)
-        ok = all(s in accepted for s, _ in srcs)
+        harmless = [f"os.path.abspath({param})", f"os.path.normpath({param})", f"os.path.expanduser({param})", f"str({param})", f"os.fspath({param})"]
+        ok = all(s in accepted + harmless for s, _ in srcs)
         self.ob(
             pid, q, f"parameter-unmodified/{param}", ok,
-            f"{param} is re-assigned to {[s for s, _ in srcs]} (only {accepted} keeps the documented location)", srcs[0][1] if srcs else None,
+            f"{param} is re-assigned to {[s for s, _ in srcs]}: whether it still denotes the documented location cannot be decided syntactically",
+            srcs[0][1] if srcs else None, unknown=not ok,
         )
 
     # ---------------------------------------------------------------- C05
@@ -481,62 +568,84 @@ class Statics:
             if fi is None:
                 self.ob(pid, q, "exists", False, "writer not found", unknown=True, kind="crash")
                 continue
-            # effect trace of the (straight-line at top level) writer body
-            trace = []
-            for idx, s in enumerate(fi.node.body):
-                for n in ast.walk(s):
-                    if isinstance(n, ast.Call):
-                        f = n.func
-                        if isinstance(f, ast.Name) and f.id == "open":
-                            mode = n.args[1].value if len(n.args) > 1 and isinstance(n.args[1], ast.Constant) else None
-                            trace.append(("open", ast.unparse(n.args[0]), mode, idx, n.lineno, type(s).__name__))
-                        d = self.dotted(f, fi.module) if isinstance(f, ast.Attribute) else None
-                        if d in ("os.replace", "os.rename"):
-                            trace.append(("replace", ", ".join(ast.unparse(a) for a in n.args), None, idx, n.lineno, type(s).__name__))
-                        if isinstance(f, ast.Attribute) and f.attr in ("close", "flush") and isinstance(f.value, ast.Name):
-                            trace.append((f.attr, f.value.id, None, idx, n.lineno, type(s).__name__))
-                if isinstance(s, ast.With):
-                    trace.append(("with-exit", "", None, idx + 0.5, s.end_lineno, "With"))
-            opens = [t for t in trace if t[0] == "open" and t[2] and any(c in t[2] for c in "wax+")]
-            repl = [t for t in trace if t[0] == "replace"]
-            closes = [t for t in trace if t[0] == "close" or t[0] == "with-exit"]
+            # effect trace of the writer body, in source order; path arguments in canonical (parameter-level) form
+            handler_nodes = set()
+            for n in ast.walk(fi.node):
+                if isinstance(n, ast.Try):
+                    for h in n.handlers:
+                        handler_nodes.update(id(x) for x in ast.walk(h))
+            opens, repl, closes, withs = [], [], [], []
+            for n in ast.walk(fi.node):
+                if isinstance(n, ast.With):
+                    for it in n.items:
+                        c = it.context_expr
+                        if isinstance(c, ast.Call) and isinstance(c.func, ast.Name) and c.func.id == "open":
+                            withs.append((id(c), n))
+                if isinstance(n, ast.Call):
+                    f = n.func
+                    if isinstance(f, ast.Name) and f.id == "open" and n.args:
+                        mode = n.args[1].value if len(n.args) > 1 and isinstance(n.args[1], ast.Constant) else ("r" if len(n.args) == 1 and not n.keywords else None)
+                        if mode is None or any(c in mode for c in "wax+"):
+                            opens.append((n, self.canon(n.args[0], fi), mode))
+                    d = self.dotted(f, fi.module) if isinstance(f, ast.Attribute) else None
+                    if d in ("os.replace", "os.rename", "shutil.move") and len(n.args) == 2:
+                        repl.append((n, self.canon(n.args[0], fi), self.canon(n.args[1], fi)))
+                    if isinstance(f, ast.Attribute) and f.attr == "close" and id(n) not in handler_nodes:
+                        closes.append(n)
+            fin = self.canon(ast.parse(final, mode="eval").body, fi)
             # (a) exactly one write-open, onto the temporary name, truncating (an existing leftover must not block)
-            self.ob(pid, q, "single-write-open", len(opens) == 1, f"{len(opens)} files are opened for writing", opens[0][4] if opens else None, kind="crash")
+            self.ob(pid, q, "single-write-open", len(opens) == 1, f"{len(opens)} files are opened for writing", opens[0][0].lineno if opens else None,
+                    kind="crash", unknown=len(opens) == 0)
             if len(opens) != 1:
                 continue
-            o = opens[0]
-            self.ob(pid, q, "writes-temporary-name", o[1] == "temp_file_path",
-                    f"the writer opens {o[1]} for writing: a kill during writing leaves a partial file under a name the loader reads", o[4], kind="crash")
-            self.ob(pid, q, "temporary-opened-truncating", o[2] == "wb",
-                    f"open mode {o[2]!r}: only 'wb' both truncates a leftover of an earlier interrupted run and creates the file", o[4], kind="crash")
+            on, oarg, omode = opens[0]
+            self.ob(pid, q, "writes-temporary-name", oarg != fin,
+                    f"the writer opens {oarg} for writing: a kill during writing leaves a partial file under the name the loader reads", on.lineno, kind="crash")
+            self.ob(pid, q, "temporary-opened-truncating", omode == "wb",
+                    f"open mode {omode!r}: only 'wb' both truncates a leftover of an earlier interrupted run and creates the file", on.lineno, kind="crash",
+                    unknown=omode is None)
             # (b) the loader ignores the temporary name: z3 over all strings
             t0 = time.time()
             p = z3.String("p")
-            s = z3.Solver()
-            s.set("timeout", 5000)
-            tmp = z3.Concat(p, z3.StringVal(".tmp"))
-            s.add(z3.Or(z3.SuffixOf(z3.StringVal(".mhl"), tmp), z3.SuffixOf(z3.StringVal("ascmhl_chain.xml"), tmp), z3.SuffixOf(z3.StringVal("ascmhl_collection.xml"), tmp)))
-            r = s.check()
-            defs = self.assigns(fi, "temp_file_path")
-            okdef = len(defs) == 1 and defs[0][0] == f"{final} + '.tmp'"
-            self.obs.append({"name": f"{q}:temporary-name-invisible-to-loader", "kind": "crash", "props": [pid],
-                             "verdict": "discharged" if (r == z3.unsat and okdef) else ("refuted" if okdef is False else "unknown"),
-                             "backend": "z3", "time": round(time.time() - t0, 3), "line": defs[0][1] if defs else None,
-                             "reason": None if (r == z3.unsat and okdef) else f"temp_file_path defined as {defs}", "trace": [], "func": q, "sha": sha(fi),
-                             "model": None if okdef else {"definition": defs}, "assumed": []})
+            sv = z3.Solver()
+            sv.set("timeout", 5000)
+            mt = re.fullmatch(re.escape(fin) + r" \+ '([^']*)'", oarg)
+            verdict, why = "unknown", f"the temporary name is {oarg}: not of the form <final name> + <literal suffix>"
+            if mt:
+                tmp = z3.Concat(p, z3.StringVal(mt.group(1)))
+                sv.add(z3.Or(z3.SuffixOf(z3.StringVal(".mhl"), tmp), z3.SuffixOf(z3.StringVal("ascmhl_chain.xml"), tmp), z3.SuffixOf(z3.StringVal("ascmhl_collection.xml"), tmp)))
+                r = sv.check()
+                if r == z3.unsat:
+                    verdict, why = "discharged", None
+                elif r == z3.sat:
+                    verdict, why = "refuted", f"a temporary name {oarg} can end in a name the loader reads, e.g. final name {sv.model()[p]}"
+            elif oarg == fin:
+                verdict, why = "refuted", "the writer writes the final name directly"
+            self.obs.append({"name": f"{q}:temporary-name-invisible-to-loader", "kind": "crash", "props": [pid], "verdict": verdict,
+                             "backend": "z3", "time": round(time.time() - t0, 3), "line": on.lineno, "reason": why, "trace": [], "func": q, "sha": sha(fi),
+                             "model": None if verdict == "discharged" else {"temporary": oarg, "final": fin}, "assumed": []})
             # (c) the move into place is the last file-system effect and happens after the file is closed
-            self.ob(pid, q, "single-move-into-place", len(repl) == 1 and repl[0][1] == f"temp_file_path, {final}",
-                    f"moves into place: {[(t[1]) for t in repl]}", repl[0][4] if repl else None, kind="crash")
+            ok_move = len(repl) == 1 and repl[0][1] == oarg and repl[0][2] == fin
+            self.ob(pid, q, "single-move-into-place", ok_move, f"moves into place: {[(t[1], t[2]) for t in repl]}, expected ({oarg} -> {fin})",
+                    repl[0][0].lineno if repl else None, kind="crash", unknown=(len(repl) == 0 and oarg != fin and not ok_move))
             if len(repl) == 1:
-                rp = repl[0]
-                closed_before = any(c[3] < rp[3] or (c[3] == rp[3] and c[4] < rp[4] and c[0] == "close") for c in closes)
-                inside_with = any(isinstance(s_, ast.With) and any(n is not None and isinstance(n, ast.Call) and self.dotted(n.func, fi.module) in ("os.replace", "os.rename") for n in ast.walk(s_) if isinstance(n, ast.Call) and isinstance(n.func, ast.Attribute)) for s_ in fi.node.body)
-                self.ob(pid, q, "closed-before-move", closed_before and not inside_with,
-                        "the temporary file is moved onto the final name before it is closed (buffered data is lost if the process is killed in between)", rp[4], kind="crash")
-                later = [t for t in trace if t[3] > rp[3] and t[0] in ("open", "replace")]
-                self.ob(pid, q, "move-is-last-effect", not later, f"file-system effects after the move: {later}", rp[4], kind="crash")
-                in_finally = any(isinstance(n, ast.Try) and n.finalbody and any(isinstance(m, ast.Call) and isinstance(m.func, ast.Attribute) and self.dotted(m.func, fi.module) in ("os.replace", "os.rename") for fb in n.finalbody for m in ast.walk(fb)) for n in ast.walk(fi.node))
-                self.ob(pid, q, "move-only-on-success", not in_finally, "the move into place sits in a finally block: an aborted write would still publish the partial file", rp[4], kind="crash")
+                rn = repl[0][0]
+                w = [wn for cid, wn in withs if cid == id(on)]
+                if w:
+                    inside = any(x is rn for x in ast.walk(w[0]))
+                    closed_before, undecided = (not inside and w[0].end_lineno < rn.lineno), False
+                else:
+                    before = [c for c in closes if c.lineno < rn.lineno]
+                    closed_before, undecided = bool(before), (not closes)
+                self.ob(pid, q, "closed-before-move", closed_before,
+                        "the temporary file is moved onto the final name before it is closed (buffered data is lost if the process is killed in between)",
+                        rn.lineno, kind="crash", unknown=(not closed_before and undecided))
+                later = [t[0].lineno for t in opens + repl if t[0].lineno > rn.lineno]
+                self.ob(pid, q, "move-is-last-effect", not later, f"file-system effects after the move at lines {later}", rn.lineno, kind="crash")
+                in_finally = any(isinstance(n, ast.Try) and n.finalbody and any(m is rn for fb in n.finalbody for m in ast.walk(fb)) for n in ast.walk(fi.node))
+                in_handler = id(rn) in handler_nodes
+                self.ob(pid, q, "move-only-on-success", not in_finally and not in_handler,
+                        "the move into place sits in a finally block or exception handler: an aborted write would still publish the partial file", rn.lineno, kind="crash")
         # commit: per history the manifest is written (and complete) before the chain refers to it; children first
         q = "ascmhl.generator.MHLGenerationCreationSession.commit"
         fi = self.repo.funcs.get(q)
@@ -562,6 +671,7 @@ class Statics:
     # ---------------------------------------------------------------- C12 (call-site obligations)
     def c12(self):
         pid = "C12"
+        first = len(self.obs)
         SPEC_SRC = "ignore.MHLIgnoreSpec(existing_history.latest_ignore_patterns(), ignore_list, ignore_spec_file)"
         cmds = {
             "ascmhl.commands.create_for_folder_subcommand": True,
@@ -612,7 +722,10 @@ class Statics:
         fi = self.repo.funcs.get(q)
         if fi is not None:
             calls = [n for n in ast.walk(fi.node) if isinstance(n, ast.Call) and isinstance(n.func, ast.Name) and n.func.id == "post_order_lexicographic"]
-            ok = len(calls) >= 1 and all([ast.unparse(a) for a in c_.args][1:] == ["ignore_pathspec", "root"] and not c_.keywords for c_ in calls)
+            own = [a.arg for a in fi.node.args.args][1:3]
+            ok = len(calls) >= 1 and all(
+                ([ast.unparse(a) for a in c_.args][1:] + [ast.unparse(k.value) for k in c_.keywords if k.arg in own]) == own for c_ in calls
+            )
             self.ob(pid, q, "recursion-keeps-patterns-and-root", ok,
                     f"recursive calls pass {[[ast.unparse(a) for a in c_.args] for c_ in calls]}: sub-directories must be matched against the same patterns relative to the same root",
                     calls[0].lineno if calls else None, kind="callsite")
@@ -623,6 +736,12 @@ class Statics:
             src = ast.unparse(fi.node)
             self.ob(pid, q, "latest = patterns of the last generation", "self.hash_lists[-1]" in src and "get_pattern_list()" in src,
                     "latest_ignore_patterns does not read the last generation's pattern list", kind="callsite")
+        # these call-site obligations compare source shapes: a mismatch means "the code left the shape this checker
+        # understands", not "the property is broken" -- it is reported as undecided and the bounded search and the
+        # contracts of commit / MHLIgnoreSpec decide
+        for o in self.obs[first:]:
+            if o["kind"] == "callsite" and o["verdict"] == "refuted":
+                o["verdict"] = "unknown"
 
 
     # ---------------------------------------------------------------- C20 (main-thread obligations around the updater)
@@ -732,7 +851,7 @@ def run(pid, tier, repo_root=None):
 if __name__ == "__main__":
     import sys
 
-    for pid in sys.argv[1:] or ["C14", "C05", "C15"]:
+    for pid in [a for a in sys.argv[1:] if not a.startswith("-")] or ["C02", "C05", "C06", "C12", "C14", "C15", "C20"]:
         obs = run(pid, "quick")
         bad = [o for o in obs if o["verdict"] != "discharged"]
         print(pid, len(obs), "obligations,", len(bad), "not discharged")
